@@ -259,9 +259,35 @@ package vals
 //@   inline
 //@ func PromoteToBigRat
 //@   inline
+//@ spec fn fitsint(x mathint) bool = MinInt <= x && x <= MaxInt
+
 //@ func NormalizeBigInt
+//@   props C05 C11
 //@   inline
+//   the canonical representation: an int exactly when the value fits, otherwise the big integer itself
+//@   ensures istype(result, int) == fitsint(bigval(z))
+//@   ensures fitsint(bigval(z)) ==> result.(int) == bigval(z)
+//@   ensures !fitsint(bigval(z)) ==> istype(result, *big.Int) && result.(*big.Int) == z
 //@ func NormalizeBigRat
 //@   inline
 //@ func getInt
+//@   props C05 C11
 //@   inline
+//@   results i ok
+//@   ensures ok == fitsint(bigval(z))
+//@   ensures ok ==> i == bigval(z)
+
+//@ func Int64ToNum
+//@   props C05
+//@   ensures istype(result, int) && result.(int) == i64
+
+//@ func Uint64ToNum
+//@   props C05
+//@   ensures u64 <= MaxInt ==> istype(result, int) && result.(int) == u64
+//@   ensures u64 > MaxInt ==> istype(result, *big.Int) && bigval(result.(*big.Int)) == u64
+
+//@ func FromGo
+//@   props C05
+//@   ensures istype(a, *big.Int) && fitsint(bigval(a.(*big.Int))) ==> istype(result, int) && result.(int) == bigval(a.(*big.Int))
+//@   ensures istype(a, *big.Int) && !fitsint(bigval(a.(*big.Int))) ==> istype(result, *big.Int) && result.(*big.Int) == a.(*big.Int)
+//@   ensures istype(a, int) || istype(a, float64) || istype(a, string) || istype(a, bool) ==> result === a
